@@ -21,6 +21,7 @@ EXPLANATION = (
     "written in the `else` of the migration step inside the file lock; (e) each migration step validates before it mutates: "
     "no raise is reachable after its first file-system modification."
     ' (h) The walk that probes for older schemas starts from an absolute path and runs after the search for a current configuration; the new workspace of the v1->v2 migration is created in the project root, independent of the configured name.'
+    ' The loop that moves the legacy files does not stop at the first missing one (C20-f).'
 )
 UNDECIDED = "That a migration preserves ids, state points, documents and files for every legacy layout is behavioural and not decided."
 
